@@ -499,11 +499,11 @@ def main(argv):
     mem_gb = 14
     tag = f"{prop}-{a.tier}" + os.environ.get("VERIF_TARGET_SUFFIX", "")
     t0 = time.time()
-    # Memory classes: harnesses that ask for >= 24 GB ("heavy") run after the light ones, one cargo-kani
+    # Memory classes: harnesses that ask for >= 28 GB ("heavy") run after the light ones, one cargo-kani
     # invocation at a time, with as many CBMC processes as fit into RAM; light ones run with the full job count.
     light, heavy = {}, {}
     for u in sel:
-        h = bool(u.mem and u.mem >= 24)
+        h = bool(u.mem and u.mem >= 28)  # 24 GB harnesses stay in the light phase (run_crate limits their parallelism)
         (heavy if h else light).setdefault((u.crate, u.env, h), []).append(u)
     runs, results = [], []
     if light:
